@@ -49,6 +49,15 @@ def perturb_noop_config(cases, rng, prob=0.15):
                 ops.insert(rng.randint(0, len(ops)), 'sn:%s:%s:%d' % (f[3], f[4], rng.choice([0, 1, 7, 64, 4096, 131072])))
                 f[11] = ','.join(ops)
                 c = ' '.join(f)
+        if (c.startswith('S ') or c.startswith('SI ')) and rng.random() < 0.08:
+            # the first chunk the transport would deliver is handed over at construction instead (WebSocket::from_partially_read):
+            # the same bytes reach the connection, only through the other constructor
+            f = c.split(' ')
+            rds = [] if f[12] in ('-', '') else f[12].split(',')
+            if f[10] == '-' and rds and rds[0].startswith('d:') and len(rds[0]) > 2 and '@' not in f[8]:
+                f[10] = rds[0][2:]
+                f[12] = ','.join(rds[1:]) if len(rds) > 1 else '-'
+                c = ' '.join(f)
         out.append(c)
     return out
 
